@@ -22,6 +22,8 @@ pub fn build(full_name: &str, level: u8) -> Option<Scenario> {
     // the term (needed by the C10 suffix); otherwise identical to the base scenario
     let live = full_name.ends_with("-live");
     let name = full_name.trim_end_matches("-live");
+    // "-memq": compaction as MemStorage does it (term of first_index-1 forgotten)
+    let memq = name.contains("-memq");
     match name {
         // ------------------------------------------------------------ ELECT
         n if n.starts_with("elect") => {
@@ -133,6 +135,50 @@ pub fn build(full_name: &str, level: u8) -> Option<Scenario> {
                     Action::DropAll,
                 ];
                 s.max_term = mt + 1;
+            }
+            if name.contains("-back") {
+                // (1, term 1) is committed everywhere; node 1 holds a local-only (2, term 1);
+                // node 2 leads term 2 (elected by 3) with a local-only (2, term 2); node 1 knows
+                // term 2. If node 1 wins term 3 it must overwrite node 2's later-term entry with
+                // batches anchored at the common term-1 entry.
+                for nd in s.nodes.iter_mut() {
+                    nd.max_size_per_msg = raft::NO_LIMIT;
+                }
+                s.prefix = vec![
+                    Action::Timeout(1),
+                    Action::Settle,
+                    Action::Propose(1, 0),
+                    Action::Settle0(1),
+                    Action::DropAll,
+                    Action::Timeout(2),
+                    Action::Settle0(2),
+                    Action::Deliver(2, 3),
+                    Action::Settle0(3),
+                    Action::Deliver(2, 1),
+                    Action::Settle0(1),
+                    Action::Deliver(3, 2),
+                    Action::Settle0(2),
+                    Action::DropAll,
+                ];
+                s.timeoutable = vec![1];
+                s.clients_at = vec![1];
+                s.crashable = vec![2];
+                let (to, props, beats, drops, dups, crashes, mi) = match l {
+                    0 => (1, 0, 1, 0, 0, 0, 4),
+                    1 => (1, 1, 1, 1, 0, 0, 5),
+                    2 => (1, 1, 2, 1, 1, 1, 5),
+                    _ => (2, 1, 2, 1, 1, 1, 5),
+                };
+                s.max_term = 3 + (l as u64) / 3;
+                s.max_index = mi;
+                s.caps = caps(|c| {
+                    c.timeouts = to;
+                    c.props = props;
+                    c.beats = beats;
+                    c.drops = drops;
+                    c.dups = dups;
+                    c.crashes = crashes;
+                });
             }
         }
         // ------------------------------------------------------------ RELEAD
@@ -272,6 +318,12 @@ pub fn build(full_name: &str, level: u8) -> Option<Scenario> {
                 }
                 if n.contains("-unp") {
                     nd.max_apply_unpersisted = 2;
+                }
+                if n.contains("-split") {
+                    // fsync only when must_sync says so; the state machine has a store of its
+                    // own: after a crash the applied index may be ahead of the durable commit
+                    nd.skip_sync_when_allowed = true;
+                    nd.split_app_store = true;
                 }
             }
             if n.contains("-lazy") {
@@ -456,6 +508,18 @@ pub fn build(full_name: &str, level: u8) -> Option<Scenario> {
                         c.drops = 0;
                     }
                 }
+                if n.contains("-compact") {
+                    // any node may compact its log up to its applied index: late, duplicated
+                    // and reordered appends meet compacted prefixes
+                    c.compacts = 1 + (l as u8) / 3;
+                    c.dups = 1 + (l as u8) / 2;
+                    c.reorders = (l as u8).min(1);
+                    c.drops = (l as u8) / 2;
+                    if l == 0 {
+                        c.props = 1;
+                        c.beats = 0;
+                    }
+                }
                 if mix {
                     c.props = 1 + (l as u8) / 2;
                     c.beats = 1 + (l as u8) / 2;
@@ -638,6 +702,15 @@ pub fn build(full_name: &str, level: u8) -> Option<Scenario> {
                     Action::Restart(3),
                 ];
             }
+            if n.contains("-cq2") {
+                // check_quorum, and the up-to-date follower is gone for good: the follower that
+                // needs the snapshot is also the one the leader needs for its quorum
+                for nd in s.nodes.iter_mut() {
+                    nd.check_quorum = true;
+                }
+                s.prefix.push(Action::Crash(2, 9));
+                s.down_forever = vec![2];
+            }
             s.clients_at = vec![1];
             s.crashable = vec![3];
             s.timeoutable = vec![3];
@@ -754,7 +827,7 @@ pub fn build(full_name: &str, level: u8) -> Option<Scenario> {
         }
         // ------------------------------------------------------------ XFER
         n if n.starts_with("xfer") => {
-            if n.contains("-abort") || n.contains("-pipe") {
+            if n.contains("-abort") || n.contains("-pipe") || n.contains("-race") {
                 s = Scenario::new(name, 3);
             } else {
                 s = Scenario::new(name, 4);
@@ -788,6 +861,11 @@ pub fn build(full_name: &str, level: u8) -> Option<Scenario> {
                 s.transfer_targets = vec![3];
                 s.cc_menu = vec![CcSpec::V1(1, 3), CcSpec::V1(2, 3)];
             }
+            if n.contains("-lag2") {
+                // the same lagging target is asked for twice
+                s.clients_at = vec![1];
+                s.transfer_targets = vec![3];
+            }
             let pipe = n.contains("-pipe");
             if pipe {
                 // two appends pipelined to the transfer target, acknowledged separately
@@ -806,7 +884,20 @@ pub fn build(full_name: &str, level: u8) -> Option<Scenario> {
                     nd.heartbeat_tick = 2;
                 }
             }
+            let race = n.contains("-race");
+            if race {
+                // the transfer target's forced campaign races with an ordinary election of
+                // node 3 for the same term
+                s.clients_at = vec![1];
+                s.transfer_targets = vec![2];
+                s.timeoutable = vec![3];
+            }
             let (xf, props, beats, drops, dups, ccs, mt) = match l {
+                0 if race => (1, 0, 0, 0, 0, 0, 2),
+                1 if race => (1, 1, 0, 1, 0, 0, 3),
+                2 if race => (1, 1, 1, 1, 1, 0, 3),
+                0 if n.contains("-lag2") => (2, 0, 0, 0, 0, 0, 3),
+                1 if n.contains("-lag2") => (2, 1, 0, 1, 0, 0, 3),
                 0 if n.contains("-cc") => (1, 0, 0, 0, 0, 1, 3),
                 1 if n.contains("-cc") => (1, 1, 1, 1, 0, 1, 3),
                 0 if pipe => (1, 2, 0, 1, 0, 0, 3),
@@ -830,6 +921,9 @@ pub fn build(full_name: &str, level: u8) -> Option<Scenario> {
                 c.drops = drops;
                 c.dups = dups;
                 c.ccs = ccs;
+                if race {
+                    c.timeouts = 1 + (l as u8) / 2;
+                }
             });
         }
         // ------------------------------------------------------------ LEASE
@@ -862,16 +956,23 @@ pub fn build(full_name: &str, level: u8) -> Option<Scenario> {
             s.max_term = mt;
             s.max_index = 6;
             s.tickable = vec![];
+            let req = n.contains("-req");
+            s.lock_snap_lost = req;
             s.caps = caps(|c| {
                 c.ticks = rounds;
                 c.timeouts = to;
                 c.crashes = crashes;
                 c.dups = dups;
                 c.drops = drops;
+                if req {
+                    // a lock-step follower asks for a snapshot that never arrives
+                    c.reqsnaps = 1;
+                }
             });
         }
         _ => return None,
     }
+    s.mem_compact = memq;
     if live {
         let n = s.nodes.len();
         for nd in s.nodes.iter_mut() {
